@@ -244,9 +244,15 @@ hashtable_notify(struct hash_table *t, struct hash_node *n,
 		 void *old_value, void *value)
 {
 	struct qb_list_head *list;
+	struct qb_list_head *next;
 	struct qb_map_notifier *tn;
+	qb_map_notify_fn fn;
+	int32_t fn_events;
+	void *fn_data;
 
-	qb_list_for_each(list, &n->notifier_head) {
+	/* a notifier may remove itself from inside its callback: nothing of
+	 * it is looked at afterwards */
+	qb_list_for_each_safe(list, next, &n->notifier_head) {
 		tn = qb_list_entry(list, struct qb_map_notifier, list);
 
 		if (tn->events & event) {
@@ -254,18 +260,20 @@ hashtable_notify(struct hash_table *t, struct hash_node *n,
 				     tn->user_data);
 		}
 	}
-	qb_list_for_each(list, &t->notifier_head) {
+	qb_list_for_each_safe(list, next, &t->notifier_head) {
 		tn = qb_list_entry(list, struct qb_map_notifier, list);
+		fn = tn->callback;
+		fn_events = tn->events;
+		fn_data = tn->user_data;
 
-		if (tn->events & event) {
-			tn->callback(event, (char *)key, old_value, value,
-				     tn->user_data);
+		if (fn_events & event) {
+			fn(event, (char *)key, old_value, value, fn_data);
 		}
 		if (((event & QB_MAP_NOTIFY_DELETED) ||
 		     (event & QB_MAP_NOTIFY_REPLACED)) &&
-		    (tn->events & QB_MAP_NOTIFY_FREE)) {
-			tn->callback(QB_MAP_NOTIFY_FREE, (char *)key,
-				     old_value, value, tn->user_data);
+		    (fn_events & QB_MAP_NOTIFY_FREE)) {
+			fn(QB_MAP_NOTIFY_FREE, (char *)key,
+			   old_value, value, fn_data);
 		}
 	}
 }
